@@ -399,7 +399,7 @@ void run_idle_sweep(Judge& j, uint64_t nbase, int max_idle, const std::vector<in
     uint64_t idx = 0;
     Knobs k; k.pubs_max = 6; k.suffix = 12 * SEC; k.span = 1 * SEC; k.faults_max = 1; k.bad_attempts_max = 1; k.big_payload_pct = 0;
     k.rm_choices = {0, 0, 1, 2, 5, 10, 65535}; k.authenticator_pct = 30; k.server_disconnect_pct = 40;
-    const uint64_t nmini = 16;   // deterministic small bases on top of the seeded ones (see below)
+    const uint64_t nmini = 18;   // deterministic small bases on top of the seeded ones (see below)
     // debugging aid: --sweep-bi B [--sweep-pass P] [--sweep-ip N] [--sweep-tk K] re-runs the matching placements only (no sharding)
     const bool dbg = ctx.args.has("sweep-bi");
     const int64_t dbg_bi = dbg ? ctx.args.num("sweep-bi") : -1, dbg_pass = ctx.args.has("sweep-pass") ? ctx.args.num("sweep-pass") : -1,
@@ -424,6 +424,14 @@ void run_idle_sweep(Judge& j, uint64_t nbase, int max_idle, const std::vector<in
                 else base.net.write_done_delay_max = 400 * MS;
                 Action ra; ra.kind = Action::reauth; ra.at = variant < 8 ? 260 * MS : 300 * MS; base.script.push_back(ra);
                 base.end = 8 * SEC;
+            } else if (variant >= 16) {
+                // a transport whose shutdown never completes, and a terminal action whose packet reaches the wire late: behind a slow
+                // write completion (16) or behind a slow connect (17). The 5 s bound of async_disconnect counts from its initiation.
+                base.net.shutdown_hangs = true; base.bcfg.linger_after_disconnect = true;
+                if (variant == 16) base.net.write_done_delay_min = base.net.write_done_delay_max = 1500 * MS;
+                else base.default_attempt.tcp_delay = 1500 * MS;
+                Action p; p.kind = Action::publish; p.at = (variant == 16 ? 250 : 1800) * MS; p.qos = 1; p.topic = "x"; p.payload = "y"; base.script.push_back(p);
+                base.end = 14 * SEC;
             } else if (variant >= 14) {
                 // two publishes written and unacknowledged (slow acknowledgements), the connection is lost on the read side while
                 // the sender is idle, the client reconnects: whatever is initiated meanwhile goes behind their retransmissions
@@ -448,7 +456,7 @@ void run_idle_sweep(Judge& j, uint64_t nbase, int max_idle, const std::vector<in
             }
         }
         if (bi < nbase) {    // the seeded bases get random slow paths and limits; the small deterministic ones stay as written
-        if (rng.chance(1, 3)) base.net.shutdown_hangs = true;
+        if (rng.chance(1, 3)) { base.net.shutdown_hangs = true; if (rng.chance(1, 2)) base.bcfg.linger_after_disconnect = true; }
         // slow paths: the terminal action then meets a connect in progress, a handshake in flight or a write being drained
         if (rng.chance(1, 3)) base.default_attempt.tcp_delay = (vt)rng.pick(std::vector<vt>{300 * MS, 1500 * MS});
         if (rng.chance(1, 3)) { base.net.latency_min = 50 * MS; base.net.latency_max = (vt)rng.pick(std::vector<vt>{200 * MS, 900 * MS}); }
